@@ -128,7 +128,7 @@ func metricNonEmpty(impl Sexp) (series int, points int) {
 
 func init() {
 	props["C09"] = func(c *Ctx) {
-		c.Res.Rule = "case = 0-20 records on a 1-second lattice (equal timestamps, samples exactly on window edges, several series, unwrap values incl. unparsable ones) x range function (count, rate, bytes, bytes_rate; sum/avg/min/max/stdvar/stddev/quantile/first/last over unwrapped values with bytes/duration conversion and post-filters, optional grouping) x range in {1,2,5,10}s x offset in {0,1,2,5}s x grid (instant, or start/end/step with step <, =, > range); an eighth of the cases: a dense series of unordered unwrapped values, made ONE series by `without (v)` (the unwrapped label stays a label otherwise), under overlapping windows (range 3-10 s, step 1 s), a third of them quantile_over_time; value compared as exact rational vs float64 within 1e-9; plus a relational check: the value at a time T is the same on two different grids containing T and as an instant query at T; non-trivial = non-empty result; distinct by request line"
+		c.Res.Rule = "case = 0-20 records on a 1-second lattice (equal timestamps, samples exactly on window edges, several series, unwrap values incl. unparsable ones) x range function (count, rate, bytes, bytes_rate; sum/avg/min/max/stdvar/stddev/quantile/first/last over unwrapped values with bytes/duration conversion and post-filters, optional grouping) x range in {1,2,5,10}s x offset in {0,1,2,5}s x grid (instant, or start/end/step with step <, =, > range; one in sixteen shifted to the first seconds after the epoch, so that windows start before 1970); an eighth of the cases: a dense series of unordered unwrapped values, made ONE series by `without (v)` (the unwrapped label stays a label otherwise), under overlapping windows (range 3-10 s, step 1 s), a third of them quantile_over_time; value compared as exact rational vs float64 within 1e-9; plus a relational check: the value at a time T is the same on two different grids containing T and as an instant query at T; non-trivial = non-empty result; distinct by request line"
 		gen := func(r *rand.Rand) MetricCase {
 			t := MetricCase{E: *genRangeExpr(r, false), Recs: genMRecs(r, r.Intn(21)), Repeat: 2}
 			genParams(r, &t)
